@@ -371,6 +371,11 @@ func (re *Regexp) findAllRunesIndex(runner *Runner, input []rune, startAt, n int
 			flat = append(flat, start, end)
 			out = append(out, flat[len(flat)-2:len(flat):len(flat)])
 			prevEnd = m.RuneIndex + m.RuneLength
+			if re.RightToLeft() {
+				// a right-to-left scan continues from the start of the match, so that is
+				// where an adjacent empty match would be found
+				prevEnd = m.RuneIndex
+			}
 			if n > 0 {
 				n--
 			}
